@@ -48,6 +48,9 @@ func genC05(tier string, seed int64) []Case {
 		if d.Kind == "repeat" {
 			run = func(c *Ctx) { runC05Repeat(c, d) }
 		}
+		if d.Kind == "latehelper" {
+			run = func(c *Ctx) { runC05LateHelper(c, d) }
+		}
 		cases = append(cases, Case{ID: d.id(), Class: d.Kind + "/" + d.Phase + d.Hook, Desc: d, Timeout: 90 * time.Second, Run: run})
 	}
 	Ts := []int64{150, 300}
@@ -92,6 +95,16 @@ func genC05(tier string, seed int64) []Case {
 	}
 	// several expiries on ONE instance: every timeout must be answered, torn down and
 	// followed by a fresh environment, not only the first one of a process lifetime
+	// the invocation expires while still waiting for a hung initialisation; the goroutine that waited on its behalf
+	// gets to act on the failed initialisation only after the reset AND the next (healthy) invocation are over
+	for nExt := 0; nExt <= 1; nExt++ {
+		for _, who := range []string{"rt", "e0"} {
+			if who == "e0" && nExt == 0 {
+				continue
+			}
+			add(c05Desc{Kind: "latehelper", Who: who, NExt: nExt, T: 300})
+		}
+	}
 	add(c05Desc{Kind: "repeat", NExt: 0, T: 150, Rounds: []string{"rt:afterNextNoResponse", "ok", "rt:afterNextNoResponse", "ok"}})
 	add(c05Desc{Kind: "repeat", NExt: 1, T: 150, Rounds: []string{"rt:afterNextNoResponse", "rt:beforeFirstNext", "ok", "e0:afterEvent", "ok"}})
 	add(c05Desc{Kind: "repeat", NExt: 1, T: 150, Rounds: []string{"ok", "e0:afterEvent", "e0:registeredNeverNext", "rt:afterResponseNoNext", "ok"}})
@@ -355,6 +368,9 @@ func runC05(c *Ctx, d c05Desc) {
 	}
 
 	// (d) the next invocation is healthy, on fresh processes when the environment was reset
+	// the short timeout of this world served to make the first invocation expire quickly; the healthy invocations that
+	// follow (the first of them includes a cold start) are not what is being timed: a loaded machine must not fail them
+	w.E.Srv.SetInvokeTimeout(5 * time.Second)
 	if second == nil {
 		second = w.E.InvokeAsync([]byte("event-2"), vh.InvokeOpts{})
 	}
@@ -548,5 +564,78 @@ func runC05Repeat(c *Ctx, d c05Desc) {
 	c.SetInterleaving("repeat/" + strings.Join(d.Rounds, "+"))
 	if c.WantSample || c.Violated() {
 		c.SetSample(sampleLog(w, 260))
+	}
+}
+
+// runC05LateHelper: the first invocation arrives while the initialisation hangs (the runtime never asks for next / an
+// extension registers and never asks for next) and expires. The goroutine that waited for the initialisation on its
+// behalf is held (pause point invoke.initFailed) until the timeout reset is over and the NEXT invocation has been
+// served by the new generation; whatever it still does then must not touch that generation: the invocation after
+// that is healthy too, on the same processes.
+func runC05LateHelper(c *Ctx, d c05Desc) {
+	exts := []string{}
+	for i := 0; i < d.NExt; i++ {
+		exts = append(exts, fmt.Sprintf("ext%d", i))
+	}
+	w, err := NewWorld(vh.Config{TimeoutMs: d.T, Extensions: exts})
+	if err != nil {
+		c.Inconclusive("harness: " + err.Error())
+		return
+	}
+	defer w.Close()
+	respBody := func(ev []byte) []byte { return append([]byte("RESP:"), ev...) }
+	w.RtPlan = func(gen int, p *vh.Proc) vh.ExecPlan {
+		o := RtOpts{Handle: func(p *vh.Proc, pt *vh.Party, n int, ev *vh.Resp) *vh.Exit {
+			pt.Respond(ev.ReqID(), respBody(ev.Body), nil)
+			return nil
+		}}
+		if gen == 1 && d.Who == "rt" {
+			o.BeforeFirstNext = func(p *vh.Proc, pt *vh.Party) *vh.Exit { return Stall(p) }
+		}
+		return vh.ExecPlan{Behave: w.RtLoop(o)}
+	}
+	w.ExtPlan = func(base string, gen int, p *vh.Proc) vh.ExecPlan {
+		o := ExtOpts{Events: []string{"INVOKE", "SHUTDOWN"}}
+		if gen == 1 && d.Who == "e0" && base == "ext0" {
+			o.AfterRegister = func(p *vh.Proc, pt *vh.Party, reg *vh.Resp) *vh.Exit { return Stall(p) }
+		}
+		return vh.ExecPlan{Behave: w.ExtLoop(o)}
+	}
+	cls := "latehelper/" + d.Who
+	w.Hk.Hold("invoke.initFailed", 0)
+	w.E.Init()
+	first := w.E.InvokeAsync([]byte("event-1"), vh.InvokeOpts{})
+	if !first.Wait(time.Duration(d.T)*time.Millisecond + 12*time.Second) {
+		c.Check(false, "bounded_answer", "C05/hang/"+cls, "the invocation waiting for a hung initialisation was never answered", nil)
+		c.SetSample(sampleLog(w, 200))
+		return
+	}
+	c.Check(vh.ErrName(first.Err) == "timeout", "timeout_outcome", "C05/outcome/"+cls+"/"+vh.ErrName(first.Err), "the invocation waiting for a hung initialisation did not end as a timeout", nil)
+	if !w.Hk.WaitHeld("invoke.initFailed", 3*time.Second) {
+		c.Inconclusive("hook invoke.initFailed not reached")
+		return
+	}
+	w.E.Srv.SetInvokeTimeout(5 * time.Second)
+	second := w.E.InvokeAsync([]byte("event-2"), vh.InvokeOpts{})
+	ok2 := second.Wait(12*time.Second) && second.Err == nil && bytes.Equal(second.W.Body(), respBody([]byte("event-2")))
+	c.Check(ok2, "next_healthy", "C05/next-fails/"+cls, "the invocation following the expired one failed", vh.ErrName(second.Err))
+	nProcs := len(w.E.Sup.Procs())
+	// now the late helper acts
+	w.Hk.Release("invoke.initFailed")
+	time.Sleep(150 * time.Millisecond)
+	third := w.E.InvokeAsync([]byte("event-3"), vh.InvokeOpts{})
+	if !third.Wait(12 * time.Second) {
+		c.Check(false, "stable_afterwards", "C05/third-hangs/"+cls, "the second following invocation never returned", nil)
+		c.SetSample(sampleLog(w, 200))
+		return
+	}
+	ok3 := third.Err == nil && bytes.Equal(third.W.Body(), respBody([]byte("event-3")))
+	c.Check(ok3, "stable_afterwards", "C05/third-fails/"+cls, fmt.Sprintf("the second following invocation ended %q with body %s", vh.ErrName(third.Err), trunc(third.W.Body())), nil)
+	c.Check(len(w.E.Sup.Procs()) == nProcs, "stable_afterwards", "C05/late-helper-churn/"+cls, "processes were started after the healthy invocation that followed the expired one: its environment was torn down behind its back", fmt.Sprintf("%d -> %d", nProcs, len(w.E.Sup.Procs())))
+	c.SetHooks(w.Hk.Arrived())
+	c.SetTrace(cls+fmt.Sprint(d.NExt)+vh.ErrName(third.Err), true)
+	c.SetInterleaving(cls)
+	if c.WantSample || c.Violated() {
+		c.SetSample(sampleLog(w, 200))
 	}
 }
